@@ -294,7 +294,7 @@ def run(tier):
                              "loops over the input vector are element-uniform (one evaluation for a symbolic index)"],
                 trusted_base=["rustc type checker and name resolution", "ndv-export", "ndvlib/interp.py", "ndvlib/poly.py"])
     F = facts.load("default")
-    fns = {b["name"]: b for b in F.bodies.values() if b["dk"] == "Fn"}
+    fns = {b["name"]: b for b in F.bodies.values() if b["dk"] == "Fn" and not facts.binding_layer(b["path"])}
     for name, (ty, argn, seeds, outs) in SCALAR.items():
         scalar_driver(chk, F, fns, name, ty, argn, seeds, outs)
     vec3(chk, F, fns)
